@@ -15,7 +15,8 @@ from . import msm, recurrence, weights
 
 LEVEL_TEXT = ('Static analysis; decides ONLY structural necessary conditions of completeness whose breakage makes honest proofs fail in configurations the '
               'test-suite never runs (aggregation >= 8; capacity > aggregation; mixed capacities in a batch): the closed-form aggregation recurrence '
-              '(polynomial normal form) and the one-origin rule for precomputed table, padding and vector lengths. It does NOT decide completeness itself.')
+              '(polynomial normal form) and the one-origin rule for precomputed table, padding and vector lengths. It does NOT decide completeness itself.'
+              " Also runs C06's guard rules (an honest prover that is refused yields no accepted proof).")
 ASSUMPTIONS = ['induction recorded in DESIGN.md: T_i = z^(2*2^i), S_i = sum_{j=1..2^i} z^(2j)']
 RULE_TEXT = 'one obligation per structural clause; non-trivial = decided from a normal form or argument term'
 
